@@ -1,3 +1,4 @@
+import Ccp.Gen.Tables
 import Ccp.Spec.BlankKeep
 import Ccp.Proofs.TreeLossless
 import Ccp.Proofs.TreeKeep
@@ -119,5 +120,24 @@ example : (parse { iosIgn with ios := false } ["macro name m".toList, "".toList,
 /-- an unterminated banner protects everything after it; the blank line before it goes -/
 example : (parse iosIgn ["".toList, "banner exec #".toList, "".toList, " ".toList]).texts =
     ["banner exec #".toList, "".toList, " ".toList] := by decide
+
+end Ccp.C01
+
+namespace Ccp.C01
+open Ccp.Tree
+
+/-- **constants_as_modelled** — the literals the hand-written banner / macro recognisers of the model hard-wire are
+the ones `/repo`'s source contains *now* (`Ccp.Gen.Tables` is regenerated from the source on every run): the banner
+keyword set and regex templates of `_build_banner_re_ios`, the delimiter regex of `_banner_mark_regex`, and the
+`txt[0:11] == "macro name "` test of `bootstrap`.  Editing any of them in the code breaks this obligation. -/
+theorem constants_as_modelled :
+    (Gen.bannerKeywords.all (fun k => bannerKeywords.contains k.toList) = true) ∧
+    (bannerKeywords.all (fun k => (Gen.bannerKeywords.map String.toList).contains k) = true) ∧
+    Gen.bannerStartTemplate = "^(set\\s+)*banner\\s+{}" ∧
+    Gen.bannerStartExtra = "aaa authentication fail-message" ∧
+    Gen.bannerDelimRegex = "^(?:(?P<btype>(?:set\\s+)*banner\\s\\w+\\s+)(?P<bchar>\\S))" ∧
+    Gen.macroStartLiteral = "macro name " ∧
+    Gen.macroStartSlice = (0, 11) := by
+  decide
 
 end Ccp.C01
